@@ -33,3 +33,29 @@ def register(reg):
         ensures=["old(self.state) == 'State.PREAMBLE' and self.state == 'State.PART' and result == event.data"],
         raises={"ValueError": "old(self.state) != 'State.PREAMBLE'"},
     )
+
+    # ---- Field / File events: the part header block
+    H = reg.models.get("Headers") or reg.model("Headers", cls="werkzeug/datastructures/headers.py:Headers", fields={"_list": "List[Tuple[str, str]]"})
+    FieldEv = reg.model("FieldEv", cls="werkzeug/sansio/multipart.py:Field", fields={"name": "str", "headers": H})
+    FileEv = reg.model("FileEv", cls="werkzeug/sansio/multipart.py:File", fields={"name": "str", "filename": "str", "headers": H})
+    reg.spec("disp_field(b, name)", "b'\\r\\n--' + b + b'\\r\\nContent-Disposition: form-data; name=\"' + name.encode() + b'\"'")
+    for tag, Ev, extra in (("field", FieldEv, ""), ("file", FileEv, " + b'; filename=\"' + event.filename.encode() + b'\"'")):
+        head = f"(disp_field(self.boundary, event.name){extra} + b'\\r\\n')"
+        reg.contract(
+            f"werkzeug/sansio/multipart.py:MultipartEncoder.send_event#{tag}", prop=P, self_model=Enc,
+            params={"event": Ev}, returns="bytes", modifies=["self.state"], raise_modifies=[],
+            ensures=[
+                # delimiter line, Content-Disposition with the quoted name (and file name), then one CRLF-terminated line
+                # per further header; the encoder expects the part's data next
+                f"result.startswith({head})",
+                "result.endswith(b'\\r\\n')",
+                f"implies(len(event.headers._list) == 0, result == {head})",
+                "self.state == 'State.DATA_START'",
+            ],
+            # (UnicodeEncodeError -- a name or header that is not encodable text, e.g. a lone surrogate -- is a ValueError too)
+            raises={"ValueError": "True"},
+            raises_ensures={"ValueError": ["self.state == old(self.state)"]},
+            loops={0: {"inv": [f"data.startswith({head})", "data.endswith(b'\\r\\n')",
+                               f"implies(_i == 0, data == {head})", f"len(data) >= len({head})"],
+                       "modifies": ["data"]}},
+        )
